@@ -2,6 +2,7 @@
 // fill part of C17, "valid => no report" part of C16).  See DESIGN.md §5.
 #include <algorithm>
 #include <map>
+#include <set>
 
 #include <signal.h>
 #include <sys/wait.h>
@@ -2333,6 +2334,62 @@ namespace
                                                         + "': " + what);
         }
 
+        // Every node address of the bucket serving `r`, learned without knowing the chunk layout: a
+        // forked child exhausts the bucket with the non-growing try_ interface and reports what it
+        // got; together with the live nodes that is the complete set of node starts (a superset if
+        // the bucket took fresh memory while being drained - any address outside is invalid either way).
+        std::vector<uintptr_t> learn_nodes(const Req& r)
+        {
+            std::vector<uintptr_t> nodes;
+            if (!s->has_composable)
+                return nodes;
+            int fd[2];
+            if (pipe(fd) != 0)
+                return nodes;
+            std::fflush(nullptr);
+            pid_t pid = fork();
+            if (pid == 0)
+            {
+                alarm(6);
+                close(fd[0]);
+                Req rr   = r;
+                rr.iface = COMPOSABLE;
+                std::vector<uintptr_t> got;
+                for (unsigned i = 0; i < 200000; ++i)
+                {
+                    void* q = s->try_alloc(rr);
+                    if (!q)
+                        break;
+                    got.push_back(reinterpret_cast<uintptr_t>(q));
+                }
+                size_t off = 0, bytes = got.size() * sizeof(uintptr_t);
+                while (off < bytes)
+                {
+                    ssize_t w = write(fd[1], reinterpret_cast<const char*>(got.data()) + off, bytes - off);
+                    if (w <= 0)
+                        break;
+                    off += size_t(w);
+                }
+                _exit(0);
+            }
+            close(fd[1]);
+            uintptr_t buf[512];
+            for (;;)
+            {
+                ssize_t n = read(fd[0], buf, sizeof buf);
+                if (n <= 0)
+                    break;
+                nodes.insert(nodes.end(), buf, buf + size_t(n) / sizeof(uintptr_t));
+            }
+            close(fd[0]);
+            int status = 0;
+            if (pid > 0)
+                waitpid(pid, &status, 0);
+            if (!(WIFEXITED(status) && WEXITSTATUS(status) == 0))
+                nodes.clear(); // inconclusive: no candidates
+            return nodes;
+        }
+
         void op_bad_release(const Op& op)
         {
             if (!has(O_BADREL) || !ptrchk_on)
@@ -2342,6 +2399,69 @@ namespace
             }
             static char outside_buffer[256];
             unsigned    cls = op.a % 8;
+            if ((s->fam == F_POOL || s->fam == F_COLL) && s->name.find("small") != std::string::npos && cls >= 3
+                && cls < 6)
+            {
+                // edges of the node areas: one node before the first / after the last node of a run of
+                // nodes (chunk header, padding between chunks, first byte behind the block), and the
+                // edges of the upstream blocks
+                Req r;
+                r.array = false;
+                r.iface = MEMBER;
+                r.size  = s->fam == F_POOL ? s->nominal_size() : pick_size(op.b);
+                r.align = 1;
+                size_t ns = s->node_size_of(r.size);
+                std::set<uintptr_t> nodes;
+                for (auto& l : lives)
+                    if (!l.req.array && s->node_size_of(l.req.size) == ns)
+                        nodes.insert(reinterpret_cast<uintptr_t>(l.p));
+                if (nodes.empty())
+                {
+                    ++ci.noops;
+                    return;
+                }
+                for (auto a : learn_nodes(r))
+                    nodes.insert(a);
+                std::vector<uintptr_t> cand;
+                const char*            cname = "small-run-end";
+                if (cls == 3)
+                {
+                    for (auto a : nodes)
+                        if (!nodes.count(a + ns))
+                            cand.push_back(a + ns);
+                }
+                else if (cls == 4)
+                {
+                    cname = "small-run-begin";
+                    for (auto a : nodes)
+                        if (!nodes.count(a - ns) && a > ns)
+                            cand.push_back(a - ns);
+                }
+                else
+                {
+                    cname = "small-block-edge";
+                    for (auto& b : Slab::get().outstanding())
+                        if (b.owner < static_owner_offset)
+                        {
+                            cand.push_back(reinterpret_cast<uintptr_t>(b.addr));
+                            cand.push_back(reinterpret_cast<uintptr_t>(b.addr) + b.bytes);
+                            cand.push_back(reinterpret_cast<uintptr_t>(b.addr) + b.bytes - ns);
+                        }
+                    std::vector<uintptr_t> keep;
+                    for (auto a : cand)
+                        if (!nodes.count(a))
+                            keep.push_back(a);
+                    cand.swap(keep);
+                }
+                if (cand.empty())
+                {
+                    ++ci.noops;
+                    return;
+                }
+                char* q = reinterpret_cast<char*>(cand[op.c % cand.size()]);
+                in_child(cname, r.size, [&] { s->dealloc(q, r); return 44; });
+                return;
+            }
             bool        small = s->name.find("small") != std::string::npos;
             bool        dbl_on = FOONATHAN_MEMORY_DEBUG_DOUBLE_DEALLOC_CHECK;
             if ((s->fam == F_POOL || s->fam == F_COLL) && small && cls < 3)
@@ -2416,6 +2536,43 @@ namespace
                 static const char* names[] = {"double-free-recent", "double-free-lowest",
                                               "double-free-highest", "double-free-middle"};
                 in_child(names[cls % 4], f.req.size, [&] { s->dealloc(f.p, f.req); return 44; });
+                return;
+            }
+            if (s->fam == F_STACK && (s->stale_markers() == 0 || op.c % 2))
+            {
+                // the child itself first makes a marker stale with valid calls: marker, allocation(s)
+                // (possibly into a further block), marker, unwind to the first
+                static const size_t szs[] = {1, 8, 24, 100, 400, 1500};
+                in_child("stale-marker-fresh", 0,
+                         [&]
+                         {
+                             try
+                             {
+                                 int m1 = s->take_marker();
+                                 Req r;
+                                 r.array = false;
+                                 r.iface = TRAITS;
+                                 r.align = 1;
+                                 r.size  = std::min(szs[op.b % 6], s->max_node());
+                                 if (r.size == 0)
+                                     return 45;
+                                 for (unsigned i = 0; i <= (op.b / 6) % 3; ++i)
+                                     if (!s->alloc(r))
+                                         return 45;
+                                 (void)s->take_marker();
+                                 s->unwind(m1);
+                             }
+                             catch (std::exception&)
+                             {
+                                 return 45; // the valid prefix was refused (bounded block source)
+                             }
+                             size_t last = s->stale_markers() - 1;
+                             if (s->stale_markers() == 0 || !s->stale_above_top(last))
+                                 return 45;
+                             s->caps(child_caps, 0);
+                             s->unwind_stale(last);
+                             return 44;
+                         });
                 return;
             }
             if (s->fam == F_STACK && s->stale_markers())
